@@ -146,6 +146,7 @@ def run(chk):
     chk.ob('R17.5', "all %d resolved MIR callees are in crates %s and none matches the stateful table" %
            (n_calls, sorted(c for c in crates if c)), n_calls > 600, key='callee-scan-floor')
     chk.note('callee_crates', sorted(c for c in crates if c))
+    chk.note('resolved_mir_call_sites', n_calls)
     if chk.tier == 'thorough' or True:
         from .. import witness
         witness.send_sync(chk)
